@@ -85,7 +85,7 @@ func genOp(rt *rapid.T, async bool) Op {
 	case k < 20:
 		return Op{K: "rsync", A: rapid.IntRange(1, 2).Draw(rt, "member")}
 	case k < 27:
-		return Op{K: "deliver", A: rapid.IntRange(0, 9).Draw(rt, "idx"), B: rapid.SampledFrom([]int{0, 0, 0, 0, 0, 1, 2}).Draw(rt, "fate")}
+		return Op{K: "deliver", A: rapid.IntRange(0, 9).Draw(rt, "idx"), B: rapid.SampledFrom([]int{0, 0, 0, 0, 0, 1, 2, 3}).Draw(rt, "fate")}
 	case k < 29:
 		return Op{K: "put", A: sel.Draw(rt, "obj"), C: pref.Draw(rt, "pref")}
 	case k < 32:
@@ -523,7 +523,9 @@ func (c *checker) opDeliver(m *delsim.Msg, step string) error {
 		if err != nil {
 			return fmt.Errorf("harness: deliver: %v", err)
 		}
-		if res.Requested {
+		if res.Requested && l.DropRequests {
+			c.classes["settings-record-left-unattached"] = true
+		} else if res.Requested {
 			c.classes["settings-full-sync-after-head-update"] = true
 		}
 		c.w.Logf("  settings head update from member %d recs=%s: requested=%v err=%v", m.From, delsim.ShortAll(m.RecIds), res.Requested, res.HandlerErr)
@@ -852,7 +854,10 @@ func runInBubble(cs Case) (out vstat.Outcome, err error) {
 			if i != 0 {
 				c.classes["out-of-order-delivery"] = true
 			}
+			// fate 3: the update is handled but the full-sync request it triggers is lost
+			c.l.DropRequests = op.B == 3
 			err = c.opDeliver(m, step)
+			c.l.DropRequests = false
 		case "put":
 			if o := c.pick(op.A, op.C, nil); o != nil {
 				err = c.opPut(o, step)
